@@ -239,8 +239,10 @@ impl System for Sys {
             }
             Op::AddJustification(h, p) => {
                 let ph: Vec<FactHandle> = p.iter().map(|&i| self.handles[i]).collect();
-                self.eng.tms_mut().add_logical_justification(self.handles[*h], "r2".to_string(), ph.clone());
-                self.tms.add_logical_justification(self.handles[*h], "r2".to_string(), ph);
+                // single-premise additions carry the same rule name as the first justification, pairs another one
+                let rule = if p.len() == 1 { "r" } else { "r2" };
+                self.eng.tms_mut().add_logical_justification(self.handles[*h], rule.to_string(), ph.clone());
+                self.tms.add_logical_justification(self.handles[*h], rule.to_string(), ph);
                 self.facts[*h].justs.push(p.clone());
             }
             Op::Retract(h) => {
